@@ -183,9 +183,10 @@ theorem pathsIn_of_psok {steps : List (Step VH)} (hps : PSOK ps steps) :
 
 theorem loadable_of_psok (root : Node) {steps : List (Step VH)} (hps : PSOK ps steps)
     (s : Step VH) (hs : s ∈ steps) (hne : s.1 ≠ []) (Q : PageId) (hQ : Q <+: specPage s.1) (st : Store Node)
-    (hst : ∀ q, q ≠ [] → specPage q = Q → st q = flatStore H ps root q) : Loadable H ps st Q := by
+    (hst : ∀ q, q ≠ [] → specPage q = Q → st q = flatStore H ps root q) (Z : Prop) (hz : ¬ Z) :
+    Loadable H ps Z st Q := by
   obtain ⟨pg, b, hget, hl⟩ := hps.load s hs hne Q hQ
-  refine ⟨pg, b, hget, hl, ?_⟩
+  refine ⟨pg, .persisted b, hget, Or.inl ⟨⟨b, rfl⟩, hz⟩, hl, ?_⟩
   intro q hq _ hqp
   rw [hst q hq hqp]
   unfold flatStore
@@ -205,6 +206,7 @@ theorem terminal_not_internal (hs : H.Sound) {S : List (Key × VH)} (hS : KeysOK
 structure RunInv (D : Path → Prop) (pp : Option PageId) (root : Node) (S S' : List (Key × VH))
     (done todo : List (Step VH)) (w : Walker Node) (a : TW Node) : Prop where
   sim : Sim H ps w a
+  norec : w.reconstruction = false
   par : w.parentPage = pp
   tw : (Idle (flatStore H ps root) (cfgOf H ps pp) a ∧ ∀ s ∈ done, s.2.isSome = false) ∨
        (InvB H D S S' (flatStore H ps root) (cfgOf H ps pp) done todo a ∧ done ≠ [])
@@ -266,7 +268,7 @@ theorem runInv_prologue (hs : H.Sound) {D : Path → Prop} {pp : Option PageId} 
         omega
       · obtain ⟨p, w', r, hc, ht'⟩ := hinv.todoP s (List.mem_cons_self ..)
         rw [hc, ht', sharedBits_leftOf]
-        simp)
+        simp) [] (fun hr => absurd hr (by rw [h.norec]; simp))
     obtain ⟨w1, hw1, hs1, hsame1⟩ := hsc
     rw [h.par] at hs1
     simp only [Option.map_some, hpp] at hs1
@@ -290,6 +292,7 @@ theorem runInv_step (hs : H.Sound) {D : Path → Prop} {pp : Option PageId} {roo
   obtain ⟨hpw, hpp⟩ := posOfPath_wf s.1 hlen
   obtain ⟨w1, hw1, hs1, hsame1⟩ := runInv_prologue H ps hs hso h
   have hpar1 : w1.parentPage = pp := hsame1.1.trans h.par
+  have hnr1 : w1.reconstruction = false := hsame1.2.2.2.2.trans h.norec
   -- with a parent page the terminal is not the root position
   have hne_of_parent : ∀ P0, pp = some P0 → s.1 ≠ [] := fun P0 hp => inScope_ne hscp P0 hp s hsmem
   have hlast' : ∀ w' : Walker Node, w'.lastPosition = some (posOfPath s.1) →
@@ -340,7 +343,7 @@ theorem runInv_step (hs : H.Sound) {D : Path → Prop} {pp : Option PageId} {roo
     refine ⟨_, rfl, ?_⟩
     have hstep : a.step H (cfgOf H ps pp) s = a.compactUp H (cfgOf H ps pp) (some s.1) := by
       unfold TW.step; rw [hop]; rfl
-    refine ⟨?_, hpar1, ?_, hlast' _ rfl⟩
+    refine ⟨?_, hnr1, hpar1, ?_, hlast' _ rfl⟩
     · rw [hstep]; exact sim_other_fields H ps hs1 w1.siblingStack w1.prevNode (some (posOfPath s.1))
     · rcases h.tw with ⟨hidle, hdone⟩ | ⟨hinv, _⟩
       · left
@@ -435,7 +438,7 @@ theorem runInv_step (hs : H.Sound) {D : Path → Prop} {pp : Option PageId} {roo
     have hbuild : ∃ w2, ({ w1 with lastPosition := some (posOfPath s.1) } : Walker Node).buildStack H ps (posOfPath s.1)
           = .ok w2 ∧
         Sim H ps w2 ({ a1 with pos := s.1 } : TW Node) ∧
-        w2.parentPage = pp ∧ w2.lastPosition = some (posOfPath s.1) := by
+        w2.parentPage = pp ∧ w2.lastPosition = some (posOfPath s.1) ∧ w2.reconstruction = false := by
       by_cases hne : s.1 = []
       · have hppn : pp = none := by
           cases hp : pp with
@@ -443,7 +446,7 @@ theorem runInv_step (hs : H.Sound) {D : Path → Prop} {pp : Option PageId} {roo
           | some P0 => exact absurd hne (hne_of_parent P0 hp)
         obtain ⟨w2, hw2, hs2, hsame2, _⟩ := sim_buildStack_root H ps hs1' (posOfPath s.1) hpw (by rw [hpp]; exact hne)
           (hF4 hne) (by rw [← hppn]; exact hpar1)
-        refine ⟨w2, hw2, ?_, hsame2.1.trans hpar1, hsame2.2.1⟩
+        refine ⟨w2, hw2, ?_, hsame2.1.trans hpar1, hsame2.2.1, hsame2.2.2.2.2.trans hnr1⟩
         rw [hne]; exact hs2
       · obtain ⟨w2, hw2, hs2, hsame2, _⟩ := sim_buildStack H ps hs1' (posOfPath s.1) hpw (by rw [hpp]; exact hne)
           (by
@@ -459,10 +462,13 @@ theorem runInv_step (hs : H.Sound) {D : Path → Prop} {pp : Option PageId} {roo
             exact loadable_of_psok H ps root hps s (by simp) hne Q hQ _
               (hF2 Q hQ hQl (by intro P0 hp; exact hQp P0 (by
                 rw [show ({ w1 with lastPosition := some (posOfPath s.1) } : Walker Node).parentPage
-                  = w1.parentPage from rfl, hpar1]; exact hp))))
+                  = w1.parentPage from rfl, hpar1]; exact hp))) _
+              (by
+                show ¬ w1.reconstruction = true
+                rw [hnr1]; simp))
         rw [hpp] at hs2
-        exact ⟨w2, hw2, hs2, hsame2.1.trans hpar1, hsame2.2.1⟩
-    obtain ⟨w2, hw2, hs2, hpar2, hlast2⟩ := hbuild
+        exact ⟨w2, hw2, hs2, hsame2.1.trans hpar1, hsame2.2.1, hsame2.2.2.2.2.trans hnr1⟩
+    obtain ⟨w2, hw2, hs2, hpar2, hlast2, hnr2⟩ := hbuild
     rw [hw2]
     simp only
     -- `replace_terminal`
@@ -482,9 +488,13 @@ theorem runInv_step (hs : H.Sound) {D : Path → Prop} {pp : Option PageId} {roo
           | some P0 => exact absurd hne (hne_of_parent P0 hp)
         · right; rw [hpar2]; exact inScope_depth hscp s hsmem hne)
       (by
+        intro _
         show H.kind (a1.store s.1) ≠ .internal
         rw [hF3]
         exact terminal_not_internal H hs hS hrep s.1 hlen hMat (hso.term s (by simp)))
+      [] (fun hr => absurd hr (by
+        have : w2.reconstruction = false := hnr2
+        rw [this]; simp))
     rw [hops]
     have hw3' : w2.replaceTerminal H ps (sub S' s.1) = .ok w3 := hw3
     rw [hw3']
@@ -493,7 +503,7 @@ theorem runInv_step (hs : H.Sound) {D : Path → Prop} {pp : Option PageId} {roo
         ({ a1 with pos := s.1 } : TW Node).replaceTerminal H (cfgOf H ps pp) (sub S' s.1) := by
       unfold TW.step; rw [hop]; simp only
       unfold TW.advanceAndReplace; rw [hops, ha1]
-    refine ⟨?_, hsame3.1.trans hpar2, ?_, hlast' _ (hsame3.2.1.trans hlast2)⟩
+    refine ⟨?_, hsame3.2.2.2.2.trans hnr2, hsame3.1.trans hpar2, ?_, hlast' _ (hsame3.2.1.trans hlast2)⟩
     · rw [hstep]
       rw [hpar2] at hs3
       exact hs3
